@@ -230,42 +230,59 @@ def ref_emission(nus, el, T, mus, ws, clamp=10.0):
 
 
 # ----------------------------------------------------------------------------- one model run, either opacity mode
-def run_model(kind, spec, wn, tables, cia, mode, scratch=None, weights=None):
-    """tables: {mol: dict(tg, pg (bar), tab[P,T,wn] or kcoeff[P,T,wn,g])}; mode 'xsec' or 'ktables' (then `scratch`
-    is the directory the pickle k-tables are written to and `weights` the common quadrature weights).
-    Returns a dict of everything observed; cache state is restored afterwards."""
+def install_tables(wn, tables, cia, mode, scratch=None, weights=None):
+    """register one opacity set (call inside CacheState()): tables {mol: dict(tg, pg (bar), tab[P,T,wn] or
+    kcoeff[P,T,wn,g], optional own 'wn' grid, optional own 'weights')}; mode 'xsec' or 'ktables' (then pickle files
+    are (re)written into `scratch`, KTableCache is cleared and pointed there)"""
     wn = np.asarray(wn, float)
-    with CacheState():
-        if mode == 'xsec':
-            install_xsecs({nm: (t['tg'], t['pg'], np.asarray(t['tab'], float), wn) for nm, t in tables.items()})
-        else:
-            install_ktables(scratch, {nm: (t['tg'], t['pg'], np.asarray(t['kcoeff'], float), wn,
-                                           np.asarray(t.get('weights', weights), float))
-                                      for nm, t in tables.items()})
-        cias = []
-        if cia:
-            cias.append(mem_cia(cia['pair'], cia['tg'], np.asarray(cia['tab'], float), wn))
-        install_cia(cias)
-        m = build_model(kind, spec)
-        out = {}
-        if kind != 'transmission':
-            I, _mu, _w, _ = m.partial_model()
-            out.update(I=np.array(I, float), muinv=np.array(_mu, float).ravel(), w=np.array(_w, float).ravel(),
-                       mu_quads=np.array(m._mu_quads, float), wi_quads=np.array(m._wi_quads, float))
-        grid, flux, tau, _ = m.model()
-        from taurex.contributions import AbsorptionContribution
-        ab = [c for c in m.contribution_list if isinstance(c, AbsorptionContribution)][0]
-        out.update(grid=np.array(grid, float), flux=np.array(flux, float).ravel(), tau=np.array(tau, float),
-                   dz=np.array(m.deltaz, float), dens=np.array(m.densityProfile, float),
-                   T=np.array(m.temperatureProfile, float), ap=np.array(m.altitudeProfile, float),
-                   sigma_abs=np.array(ab.sigma_xsec, float),
-                   weights=None if ab.weights is None else np.array(ab.weights, float),
-                   nonmol=[kc for kc, c in zip(contribution_inputs_all(m), m.contribution_list) if c is not ab and kc],
-                   rp=float(m.planet.fullRadius), rs=float(m.star.radius), dist=float(m.star.distance),
-                   tstar=float(m.star.temperature), sed=np.array(m.star.spectralEmissionDensity, float))
-        if kind == 'transmission':
-            out['path'] = [np.array(p, float) for p in m.path_length]
+
+    def grid(t):
+        return wn if t.get('wn') is None else np.asarray(t['wn'], float)
+    if mode == 'xsec':
+        from taurex.cache import OpacityCache
+        OpacityCache().clear_cache()
+        for nm, t in tables.items():
+            OpacityCache().add_opacity(mem_opacity(nm, t['tg'], np.asarray(t['pg'], float) * 1e5,
+                                                   np.asarray(t['tab'], float), grid(t)))
+        use_xsec()
+    else:
+        install_ktables(scratch, {nm: (t['tg'], t['pg'], np.asarray(t['kcoeff'], float), grid(t),
+                                       np.asarray(t['weights'] if t.get('weights') is not None else weights, float))
+                                  for nm, t in tables.items()})
+    cias = []
+    if cia:
+        cias.append(mem_cia(cia['pair'], cia['tg'], np.asarray(cia['tab'], float), wn))
+    install_cia(cias)
+
+
+def observe_model(m, kind):
+    """run a (possibly reused) model object and return everything observed"""
+    out = {}
+    if kind != 'transmission':
+        I, _mu, _w, _ = m.partial_model()
+        out.update(I=np.array(I, float), muinv=np.array(_mu, float).ravel(), w=np.array(_w, float).ravel(),
+                   mu_quads=np.array(m._mu_quads, float), wi_quads=np.array(m._wi_quads, float))
+    grid, flux, tau, _ = m.model()
+    from taurex.contributions import AbsorptionContribution
+    ab = [c for c in m.contribution_list if isinstance(c, AbsorptionContribution)][0]
+    out.update(grid=np.array(grid, float), flux=np.array(flux, float).ravel(), tau=np.array(tau, float),
+               dz=np.array(m.deltaz, float), dens=np.array(m.densityProfile, float),
+               T=np.array(m.temperatureProfile, float), ap=np.array(m.altitudeProfile, float),
+               sigma_abs=np.array(ab.sigma_xsec, float),
+               weights=None if ab.weights is None else np.array(ab.weights, float),
+               nonmol=[kc for kc, c in zip(contribution_inputs_all(m), m.contribution_list) if c is not ab and kc],
+               rp=float(m.planet.fullRadius), rs=float(m.star.radius), dist=float(m.star.distance),
+               tstar=float(m.star.temperature), sed=np.array(m.star.spectralEmissionDensity, float))
+    if kind == 'transmission':
+        out['path'] = [np.array(p, float) for p in m.path_length]
     return out
+
+
+def run_model(kind, spec, wn, tables, cia, mode, scratch=None, weights=None):
+    """build a fresh model on the given opacity set and run it; cache state is restored afterwards"""
+    with CacheState():
+        install_tables(wn, tables, cia, mode, scratch, weights)
+        return observe_model(build_model(kind, spec), kind)
 
 
 def contribution_inputs_all(m):
